@@ -21,7 +21,8 @@ def contracts(tier):
 
 def extra_obligations(tier):
     return [assemble_bc.rls_obligations(),
-            solve.custom_result('assemble:compute_dirichlet_bcs', assemble_bc.F, 'compute_dirichlet_bcs', assemble_bc.all_shorthand_obligations)]
+            solve.custom_result('assemble:compute_dirichlet_bcs', assemble_bc.F, 'compute_dirichlet_bcs', assemble_bc.all_shorthand_obligations),
+            solve.custom_result('assemble:Multipatch.compute_dirichlet_bcs', assemble_bc.F, 'Multipatch.compute_dirichlet_bcs', assemble_bc.multipatch_bc_obligations)]
 
 
 MANIFEST = {
